@@ -317,6 +317,74 @@ def run_history(rec, case):
         sim.teardown()
 
 
+def run_block(rec, case):
+    """A session() block during which the session ends (the application
+    disconnects it inside the block, or its client says goodbye meanwhile):
+    leaving the block is a use of session() for an id that has ended - it
+    raises KeyError and nothing written in the block survives."""
+    srv, how = case['block']
+    rec.evaluations += 1
+    rec.count('session_blocks_spanning_the_end')
+    rec.key('block/%s/%s' % (srv, how))
+    sim = scen.make_sim(srv, server_kwargs={'ping_interval': 5,
+                                            'ping_timeout': 3})
+
+    def V(key, msg):
+        rec.viol(key, msg + ' | SESSION BLOCK SPANNING THE END (%s) server=%s'
+                 % (how, srv), case)
+    try:
+        h = sim.open_polling()
+        other = sim.open_polling()
+        sim.session_save(other.sid, {'owner': 'other'})
+        p = sim.poll(h)         # a pending reader (keeps K1 out of the way)
+        sim.quiesce()
+        if how == 'disconnect-inside':
+            def inside():
+                return sim.server.disconnect(h.sid)
+        elif how == 'client-close-inside':
+            def inside():
+                sim.post(h, '1')
+                if srv == 'T':
+                    sim.server.sleep(0.25)
+                    return None
+                return asyncio_sleep(0.25)
+        else:   # control: nothing ends the session
+            def inside():
+                return None
+        t = sim.session_block(h.sid, inside)
+        sim.quiesce()
+        sim.advance(1)
+        if not t.done:
+            V('session-block-hangs', 'the block did not finish: %s' %
+              scen.hang_signature(sim, t))
+            return
+        if how == 'control':
+            if t.result != 'left':
+                V('session-block-raises', 'a block on a live session raised '
+                  '%s' % t.result)
+            return
+        rec.count('dead_id_accessors')
+        if t.result != 'KeyError':
+            V('dead-id-accessor-works', 'leaving a session() block after the '
+              'session had ended: %s (expected KeyError)' % (
+                  'no exception' if t.result == 'left' else t.result))
+        try:
+            sim.session_get(h.sid)
+            V('dead-id-accessor-works', 'get_session works after the block')
+        except KeyError:
+            pass
+        if sim.session_get(other.sid) != {'owner': 'other'}:
+            V('session-isolation', 'another session\'s data changed: %r' % (
+                sim.session_get(other.sid),))
+    finally:
+        sim.teardown()
+
+
+def asyncio_sleep(dt):
+    import asyncio
+    return asyncio.sleep(dt)
+
+
 def plan(tier, seed):
     n = 16
     if tier == 'thorough':
@@ -336,8 +404,19 @@ def run_shard(spec):
              for k in range(spec['n'])]
     for c in cases[::2]:
         c['aio'] = 'H'
+    if spec['shard'] == 0:
+        scen.run_cases(rec, [{'block': [srv, how]} for srv in 'TAH'
+                             for how in ('disconnect-inside',
+                                         'client-close-inside', 'control')],
+                       run_block)
     scen.run_cases(rec, cases, run_history)
     return rec.result()
 
 
-replay = scen.simple_replay(run_history)
+def replay(case):
+    rec = Rec()
+    if 'block' in case:
+        run_block(rec, case)
+    else:
+        run_history(rec, case)
+    return rec.violations
